@@ -310,7 +310,7 @@ pub fn world(pool: &Pool, seed: u64, n: u64) -> Scenario {
             NodeKind::Cli { args }
         }
     };
-    let node = NodeSpec { kind, cwd: "proj".into(), env, hashseed: 0, faults: vec![], leak: 0, canary: false, clock: None, pid: None };
+    let node = NodeSpec { kind, cwd: "proj".into(), env, hashseed: 0, faults: vec![], leak: 0, canary: false, clock: None, pid: None, reuse_config: false };
     g.ops.push(Op::Build { node: node.clone(), tag: "check".into() });
 
     // ---- second round: the tree changes, outputs of the first build lie around
